@@ -398,7 +398,10 @@ class Mp4Fuzz(Engine):
             env = dict(os.environ, PYTHONPATH=os.pathsep.join(p for p in sys.path if p))
             import time as _time
             deadline = float(os.environ.get("VT_DEADLINE", "0") or 0)
-            budget_s = max(30, int(deadline - _time.time())) if deadline else 0
+            if deadline and _time.time() > deadline - 20:
+                ctx.stats.notes.setdefault("time_budget_reached", __import__("collections").Counter())[self.name] += 1
+                return
+            budget_s = max(10, int(0.7 * (deadline - _time.time()))) if deadline else 0
             r = subprocess.run([sys.executable, "-m", "vt.props.c16_fuzz", wd, str(runs), str(ctx.engine_seed(3) % (2 ** 31)),
                                 "1" if seeded else "0", str(budget_s)], cwd=str(Path(__file__).resolve().parents[2]), env=env,
                                stdout=subprocess.DEVNULL, stderr=subprocess.PIPE, timeout=6 * 3600)
